@@ -230,6 +230,65 @@ def generations(ctx, proto, drv, el):
             break
     else:
         ctx.traces_validated += 1
+    # (3) the configured path in other forms: a symbolic link to the file (a mounted volume, /tmp -> /var/tmp), a name with
+    # blanks and non-ASCII letters, a relative path; saved through the path and loaded through the same path
+    sub = os.path.join(d, "var lib", "vflöw")
+    os.makedirs(sub)
+    real = os.path.join(sub, "real.templates")
+    link, link2 = os.path.join(d, "link.templates"), os.path.join(d, "link2.templates")
+    os.symlink(real, link)                                   # the target does not exist yet
+    os.symlink(os.path.join("var lib", "vflöw", "real2.templates"), link2)          # a relative link
+    forms = [("a symbolic link to the file", link), ("a relative symbolic link", link2),
+             ("a name with blanks and non-ASCII letters", os.path.join(sub, "ipfix cache.json")),
+             ("a path with .. in it", os.path.join(sub, "..", "..", "dotdot.json"))]
+    for what, path in forms:
+        run({"msgs": ann1, "dump_to": path}, "f")
+        g = run({"cache_file": path, "msgs": probes}, "g")
+        ctx.count([proto, "path-form", what])
+        bad = [k for k, x in zip(keys, g["res"]) if not (x["st"] == "ok" and recs(x) == c04.expected_recs(1))]
+        if bad:
+            ctx.violation("%s: the cache was saved to, and loaded from, a path that is %s: %d of %d templates are gone after the restart"
+                          % (name, what, len(bad), len(keys)), {"proto": proto, "path_form": what}, key=proto + ":path-form")
+            break
+    else:
+        ctx.traces_validated += 1
+    shutil.rmtree(d, ignore_errors=True)
+
+
+def shared_directory(ctx, el):
+    """both template protocols are given the SAME path, which is a directory (a configuration that saves nothing as built):
+    whatever a protocol finds there after the other one has shut down, it never decodes with the other protocol's templates"""
+    import shutil
+    d = ctx.subdir("c11shared")
+    D = os.path.join(d, "caches")
+    os.makedirs(D)
+    exps = flowjobs.exporters(ctx.seed)
+    keys = [(exps[k % 3], 256 + k) for k in range(4)]
+    recs = lambda x: [[(f["i"], tuple(f["v"]["o"])) for f in rec] for rec in x["recs"]]
+    drv = {proto: codec.driver(ctx, proto) for proto in ("ipfix", "v9")}
+
+    def run(proto, job, tag):
+        r = flowjobs.run_jobs(ctx, drv[proto], codec.P[proto]["jobs"], [job], env={"VERIF_ELEMENTS_DIR": el}, tag="c11s_%s_%s" % (proto, tag))[0]
+        if r.get("skipped") or "killed" in r:
+            raise vlib.Infra("shared-directory stage: driver failed (%s)" % (r.get("killed") or "skipped"))
+        return r
+    for first, second in (("ipfix", "v9"), ("v9", "ipfix")):
+        shutil.rmtree(D, ignore_errors=True)
+        os.makedirs(D)
+        # `first` learns version 1 and shuts down, then `second` learns version 2 of the same ids and shuts down
+        run(first, {"msgs": [{"exp": e, "buf": c04.tpl_msg(first, tid, 1)} for e, tid in keys], "dump_to": D}, "a")
+        run(second, {"msgs": [{"exp": e, "buf": c04.tpl_msg(second, tid, 2)} for e, tid in keys], "dump_to": D}, "b")
+        g = run(first, {"cache_file": D, "msgs": [{"exp": e, "buf": c04.data_msg(first, tid)} for e, tid in keys]}, "c")
+        ctx.count(["shared-directory", first, second])
+        bad = [(k, x) for k, x in zip(keys, g["res"]) if x["st"] == "ok" and x["recs"] and recs(x) != c04.expected_recs(1)]
+        if bad:
+            ctx.violation("%s and %s were given the same directory as their template cache path; after both have shut down and %s starts "
+                          "again, its data (exporter %s id %d) is decoded with a template it never learnt - the other protocol's"
+                          % (codec.P[first]["name"], codec.P[second]["name"], codec.P[first]["name"], bad[0][0][0], bad[0][0][1]),
+                          {"first": first, "second": second}, key="shared-directory")
+            break
+    else:
+        ctx.traces_validated += 1
     shutil.rmtree(d, ignore_errors=True)
 
 
@@ -459,3 +518,4 @@ def check(ctx):
         large_cache(ctx, proto, drv, el)
         generations(ctx, proto, drv, el)
         ctx.sample({"proto": proto, "file_octets": len(raw), "loads": len(loads), "example_mutation": json.dumps(mutate_doc(doc, "nullshard", ctx.rng))[:300]})
+    shared_directory(ctx, el)
